@@ -17,6 +17,7 @@ type S struct {
 	Lit   string // literal text as written for scalars (strings without quotes)
 	Ref   string
 	Or    []string
+	Sep   string // how the union bar is written: " | ", "|", "  |  " ... (the catalog keeps the text as written)
 	Rules []Rule
 	Note  string
 }
@@ -88,9 +89,16 @@ func (s *S) scalarText() string {
 	case "ref":
 		return s.Ref
 	case "or":
-		return strings.Join(s.Or, " | ")
+		return strings.Join(s.Or, s.sep())
 	}
 	return s.Lit
+}
+
+func (s *S) sep() string {
+	if s.Sep == "" {
+		return " | "
+	}
+	return s.Sep
 }
 
 // Lines renders the schema one value per line; annotations go to the end of the line that holds the value (for
@@ -229,7 +237,7 @@ func (s *S) Image(env *TypeEnv, key *string, arrayItem bool) map[string]J {
 	case "ref":
 		m["tokenType"], m["type"], m["scalarValue"] = "reference", s.Ref, s.Ref
 	case "or":
-		m["tokenType"], m["type"], m["scalarValue"] = "reference", "mixed", strings.Join(s.Or, " | ")
+		m["tokenType"], m["type"], m["scalarValue"] = "reference", "mixed", strings.Join(s.Or, s.sep())
 	}
 	if r := s.rule("enum"); r != nil {
 		m["type"] = "enum"
@@ -258,6 +266,19 @@ func (s *S) usedTypes(env *TypeEnv, set map[string]bool) {
 	}
 	if r := s.rule("allOf"); r != nil {
 		set[r.Val] = true
+		// the references of the inherited properties count as used by the inheriting schema
+		if t := env.Types[r.Val]; t != nil && t.Schema != nil {
+			for _, p := range t.Schema.Props {
+				switch p.V.K {
+				case "ref":
+					set[p.V.Ref] = true
+				case "or":
+					for _, o := range p.V.Or {
+						set[o] = true
+					}
+				}
+			}
+		}
 	}
 	switch s.K {
 	case "ref":
@@ -412,6 +433,7 @@ func (g *schemaGen) scalar(allowOptional bool) *S {
 			a, b := g.r.Intn(len(g.refTypes)), g.r.Intn(len(g.refTypes))
 			if a != b {
 				s.K, s.Or = "or", []string{g.refTypes[a], g.refTypes[b]}
+				s.Sep = []string{" | ", " | ", "|", "  |  ", " |", "| "}[g.r.Intn(6)]
 				break
 			}
 		}
